@@ -569,6 +569,72 @@ SYN_PROGRAMS = (
 )
 
 
+@functools.lru_cache(maxsize=None)
+def saturated_programs() -> tuple[str, ...]:
+    """G-sat: small programs enumerating the optional parts of every compound construct (decorators x type parameters x bases /
+    argument kinds x returns x async; handlers x else x finally x star; ...), so that every (node kind, populated field set) occurs.
+    Each is checked with CPython."""
+
+    import itertools
+
+    out = []
+    decos = ('', '@d\n', '@d1\n@d2(x, k=v)\n')
+    tparams = ('', '[T]', '[T: int, *U, **V]', '[T = int]')
+    argss = ('', 'a', 'a, /, b=1, *c, d, e=2, **f', '*, k', 'a: int = 1, *args: str, **kw: dict', '*a')
+    rets = ('', ' -> r')
+
+    for de, tp, ar, rt, asy in itertools.product(decos, tparams, argss, rets, ('', 'async ')):
+        out.append(f'{de}{asy}def f{tp}({ar}){rt}:\n    x = 1\n    return x')
+
+    bases = ('', '()', '(B)', '(B, C, m=M)', '(*bs, **kw)', '(B, *bs, m=M, **kw)')
+
+    for de, tp, ba in itertools.product(decos, tparams, bases):
+        out.append(f'{de}class C{tp}{ba}:\n    """doc"""\n    x: int = 1\n    def m(self): pass')
+
+    for star, nh, el, fi in itertools.product(('', '*'), (0, 1, 2), (0, 1), (0, 1)):
+        if not nh and not fi:
+            continue
+
+        if not nh and el:
+            continue
+
+        hs = ''.join(f'except{star} E{i} as e{i}:\n    h{i}\n' if i or star else 'except E0:\n    h0\n' for i in range(nh))
+        out.append(f'try:\n    a\n{hs}' + ('else:\n    b\n' if el else '') + ('finally:\n    c\n' if fi else ''))
+
+    for asy, el in itertools.product(('', 'async '), (0, 1)):
+        out.append(f'{asy}for i, (j, *k) in x:\n    if i: break\n    continue\n' + ('else:\n    z\n' if el else ''))
+
+    for el in (0, 1):
+        out.append('while a < b:\n    a += 1\n' + ('else:\n    z\n' if el else ''))
+
+    for asy, items in itertools.product(('', 'async '), ('a', 'a as b', 'a as b, c', '(a as b, c as (d, e))', '(a, b)', 'f() as x.y, g() as z[0]')):
+        out.append(f'{asy}with {items}:\n    pass')
+
+    out.append('if a:\n    b\nelif c:\n    d\nelif e:\n    f\nelse:\n    g')
+    out.append('if a:\n    b\nelse:\n    if c:\n        d\n    e')
+    out.append('match s:\n    case 1 | -2 | 3j: pass\n    case "a" | None | True: pass\n    case [a, b, *r] if g: pass\n    case (a, [b, {"k": v, **kw}]): pass\n'
+               '    case C(): pass\n    case m.C(1, x, k=v, kk=[w]) as whole: pass\n    case {}: pass\n    case [*_]: pass\n    case a.b.c: pass\n    case _: pass')
+    out.append('import a\nimport a.b as c, d\nfrom . import e\nfrom ..f import g as h, i\nfrom j import (k,\n    l as m)\nfrom n import *')
+    out.append('def f():\n    global g, h\n    def k():\n        nonlocal v, w\n    del a, b[0], c.d\n    raise E from c\n    assert a, "msg"\n    return\n')
+    out.append('x: int\ny: list[int] = []\n(z): int = 1\na.b: int\nc[0]: str = "s"\nx += 1\ny[0] **= 2\nz.w //= 3\ntype A = int\ntype B[T, *U] = dict[T, U]')
+    out.append('a = b = c, d = e\n[f, *g], h = i\nx = yield\ny = yield z\nw = yield from v\nasync def f():\n    r = await s\n    return [i async for i in a if b]')
+    out.append('r = f(a, *b, c, k=v, **kw, k2=v2)\nr = a[b]\nr = a[b:c:d]\nr = a[::2, 1:, :3, ...]\nr = a[*b, c]\nr = lambda: 0\nr = lambda a, /, b=1, *c, d, e=2, **f: (a, b)\n'
+               'r = [i for i in a]\nr = {i: j for i, j in a if i if j for k in l}\nr = {i for i in a}\nr = (i async for i in a)\nr = {**a, b: c, **d}\nr = {a, *b}')
+    out.append('r = f"{a}{b!r}{c:>{w}.{p}}{d=}{e!s:{f}}"\nr = "a" "b" f"{c}"\nr = (x := 1) + (y := x)\nr = a if b else c if d else e\nr = a < b <= c != d is not e not in f\n'
+               'r = a and b or not c and (d or e)\nr = -a ** +b @ ~c // d % e << f >> g & h ^ i | j\nr = a.b.c(d).e[f].g\nr = *a, *b\nr = ()\nr = (a,)\nr = [[], [[]]]')
+
+    good = []
+
+    for src in out:
+        try:
+            ast.parse(src)
+            good.append(src)
+        except SyntaxError:
+            pass
+
+    return tuple(good)
+
+
 @st.composite
 def program(draw, max_lines: int = 60, layout: bool = True):
     """A parseable module source: G-real window (60 %), G-snip module (20 %), G-syn template (20 %), optionally
@@ -581,8 +647,11 @@ def program(draw, max_lines: int = 60, layout: bool = True):
     elif k < 8:
         mods = snippet_modules()
         src = mods[draw(st.integers(0, len(mods) - 1))]
-    else:
+    elif k == 8:
         src = SYN_PROGRAMS[draw(st.integers(0, len(SYN_PROGRAMS) - 1))]
+    else:
+        sat = saturated_programs()
+        src = sat[draw(st.integers(0, len(sat) - 1))]
 
     if layout and draw(st.integers(0, 2)):
         src = mutate_layout(src, draw(layout_draws))
